@@ -28,7 +28,7 @@ def main():
             meta = json.load(open(os.path.join(d, "meta.json")))
             conf = json.load(open(os.path.join(d, "confirm.json"))) if os.path.exists(os.path.join(d, "confirm.json")) else {}
             pid = meta["property"]
-            name = "%s-%s" % (pid, os.path.basename(d)) + ("2" if "mutout2" in d else "3" if "mutout3" in d else "4" if "mutout4" in d else "5" if "mutout5" in d else "")
+            name = "%s-%s" % (pid, os.path.basename(d)) + ((re.search(r"mutout(\d+)", d) or [None, ""])[1])
             pf = os.path.join(d, "patch_ported.diff") if os.path.exists(os.path.join(d, "patch_ported.diff")) else os.path.join(d, "patch.diff")
             sh("git checkout -q -- . && git clean -fdq", WT)
             rc, o = sh("git apply " + pf, WT)
